@@ -209,7 +209,13 @@ def run_threads(cfg, preempt=None, opcode=False):
                         elif k == "rel":
                             handles[lbl] = sched.schedule_relative(timedelta(microseconds=op[2]), action(lbl, op[3]))
                         else:
-                            handles[lbl] = sched.schedule_absolute(EPOCH + timedelta(microseconds=op[2]), action(lbl, op[3]))
+                            from datetime import timezone
+
+                            when = EPOCH + timedelta(microseconds=op[2])
+                            off = (cfg.get("tz") or {}).get(str(lbl))
+                            if off is not None:  # the same instant written in another zone
+                                when = when.astimezone(timezone(timedelta(hours=off)))
+                            handles[lbl] = sched.schedule_absolute(when, action(lbl, op[3]))
                     except DisposedException:
                         ev("raised", lbl)
                     ev("ret")
@@ -560,6 +566,17 @@ def oracle(cfg, res):
         return f"a thread raised: {res['thread_exc']}"
     n = res["n"]
     events = res["events"]
+    abs_due = {}
+
+    def walk(prog):
+        for o in prog:
+            if o[0] == "abs":
+                abs_due[o[1]] = o[2]
+            if o[0] in ("sched", "rel", "abs"):
+                walk(o[-1])
+
+    for p in cfg.get("progs", []):
+        walk(p)
     open_ = None
     cancelled = set()
     dispose_done = None  # position at which the first dispose() call returned
@@ -589,7 +606,7 @@ def oracle(cfg, res):
             raised.add(e[2])
             c = cur_call.get(t)
         elif k == "item":
-            item_due[e[2]] = e[3]
+            item_due[e[2]] = abs_due.get(e[2], e[3])  # for schedule_absolute: the instant the caller asked for
             c = cur_call.get(t)
             if dispose_done is not None and c is not None and c[2] > dispose_done:
                 return f"schedule of {e[2]} started after dispose() returned and did not raise DisposedException"
